@@ -16,7 +16,7 @@ def declare(S: Spec):
            " and 0 <= a.pool_id and a.pool_id < len(s.executor.pools) and a.ram == s.executor.pools[a.pool_id].max_ram_pool"
            " and state(a.ops[0]) == OperatorState.ASSIGNED")
 
-    S.fn(f"{MO}:try_make_assignment", owners=["C18"],
+    S.fn(f"{MO}:try_make_assignment", owners=["C18", "C08"],
          params={"s": Ref("Scheduler"), "op": Ref("Operator")},
          returns=Ref("Assignment"),
          requires=["s is not None", "SnapshotOK(s)", "GI1()", "WFop(op)", "state(op) in ASSIGNABLE_STATES"],
@@ -40,7 +40,7 @@ def declare(S: Spec):
 def declare2(S: Spec):
     S.pred("QueuedOK", [("q", SeqV(Ref("Operator")))],
            "nodup(q) and all(WFop(op) and state(op) in ASSIGNABLE_STATES for op in q)")
-    S.fn(f"{MO}:make_assignments", owners=["C18"],
+    S.fn(f"{MO}:make_assignments", owners=["C18", "C08"],
          params={"s": Ref("Scheduler")},
          returns=List(Ref("Assignment")),
          requires=["s is not None and s.op_queue is not None and s.pipeline_failures is not None", "SnapshotOK(s)", "GI1()",
@@ -84,7 +84,7 @@ def declare3(S: Spec):
     # each dictionary entry is a pipeline filed under its own id
     ENTRY = ("all(pipelines_to_process[key].pipeline_id == key and (pipelines_to_process[key] in pipelines"
              " or any(r.ops[0].pipeline is pipelines_to_process[key] for r in results)) for key in keys(pipelines_to_process))")
-    S.fn(f"{MO}:update_state", owners=["C18"],
+    S.fn(f"{MO}:update_state", owners=["C18", "C08"],
          params={"s": Ref("Scheduler"), "results": List(Ref("ExecutionResult")), "pipelines": List(Ref("Pipeline"))},
          requires=["s is not None and results is not None and pipelines is not None and s.op_queue is not None and s.pipeline_failures is not None",
                    "PoolsIndexed(s.executor)", "GI1()", "QueuedOK(seq(s.op_queue))", "QueueOK(seq(pipelines))",
@@ -137,7 +137,7 @@ def declare4(S: Spec):
     upd.native_ensures.append(("ready-work-of-touched-pipelines-queued",
                                "C18| all(ReadyQueued(s, p) or any(p2.pipeline_id == p.pipeline_id and p2 is not p for p2 in pipelines) for p in pipelines)"
                                " and all(ReadyQueued(s, r.ops[0].pipeline) for r in results)"))
-    S.fn(f"{MO}:overbook_scheduler", owners=["C18"],
+    S.fn(f"{MO}:overbook_scheduler", owners=["C18", "C08"],
          params={"s": Ref("Scheduler"), "results": List(Ref("ExecutionResult")), "pipelines": List(Ref("Pipeline"))},
          returns=Tuple(List(Ref("Suspend")), List(Ref("Assignment"))),
          requires=list(upd.requires),
